@@ -8,9 +8,11 @@ import (
 	"go/types"
 	"os"
 	"path/filepath"
+	"regexp"
 	"sort"
 	"strconv"
 	"strings"
+	"text/template/parse"
 
 	"golang.org/x/tools/go/ssa"
 
@@ -100,6 +102,9 @@ func runC02(c *core.Ctx) error {
 
 	// ---- R02.3
 	checkTypeStorage(c, prog)
+
+	// ---- R02.6
+	checkPackageScopeNames(c, ts, ck)
 
 	// ---- R02.4
 	return checkExpansionsTypeCheck(c)
@@ -898,4 +903,245 @@ func trimPosMsg(s string, n int) string {
 		s = s[:n]
 	}
 	return s
+}
+
+// ---------------------------------------------------------------- R02.6
+
+var declLine = regexp.MustCompile(`^(type|func|const|var)\s+((?:\{\{[^}]*\}\}|[A-Za-z0-9_])+)`)
+var memberLine = regexp.MustCompile(`^\t((?:\{\{[^}]*\}\}|[A-Za-z0-9_])+)\s+(?:\{\{[^}]*\}\}|[A-Za-z0-9_.\[\]*])*\s*=`)
+var actionRe = regexp.MustCompile(`\{\{-?\s*([^}]*?)\s*-?\}\}`)
+
+// checkPackageScopeNames: every identifier the templates declare at package scope is catalogued from the template
+// text. A name is safe when it is (a) the Name of a type held in the type storage (unique by R02.3), (b) unexported
+// — registered type names are always exported Pascal-case identifiers, or (c) derived with a lower-case literal
+// prefix. An exported fixed name, or an exported name derived from a registered name (FooParams, StatusPet, PetType),
+// shares the namespace with the document's schema names, and nothing reserves it.
+func checkPackageScopeNames(c *core.Ctx, ts *tmpl.Set, ck *tmpl.Checker) {
+	r := c.NewRule("R02.6", "S1", "package-scope identifiers declared by templates cannot collide with names taken from the document", 40)
+	// registry-backed actions: printing actions whose value is the Name field of an ir.Type
+	registry := map[string]bool{} // file:line:action
+	for _, e := range ck.Emissions {
+		p := e.Val.Prov
+		if p == nil || p.Kind != "field" || p.Name != "Name" {
+			continue
+		}
+		if fv, ok := p.Obj.(*types.Var); ok && fv.Pkg() != nil && fv.Pkg().Path() == pkgIR {
+			rt := p.RecvT
+			if rt != nil {
+				if ptr, ok := rt.Underlying().(*types.Pointer); ok {
+					rt = ptr.Elem()
+				}
+				if n, ok := types.Unalias(rt).(*types.Named); ok && n.Obj().Name() == "Type" {
+					registry[fmt.Sprintf("%s:%d:%s", e.File, e.Line, strings.ReplaceAll(e.Node, " ", ""))] = true
+				}
+			}
+		}
+	}
+	type decl struct {
+		file string
+		line int
+		kind string
+		form string
+	}
+	var decls []decl
+	for _, file := range ts.Files {
+		src := ts.Source[file]
+		inBlock := ""
+		for i, ln := range strings.Split(src, "\n") {
+			if m := regexp.MustCompile(`^(const|var)\s*\(`).FindStringSubmatch(ln); m != nil {
+				inBlock = m[1]
+				continue
+			}
+			if inBlock != "" {
+				if strings.HasPrefix(ln, ")") {
+					inBlock = ""
+					continue
+				}
+				if m := memberLine.FindStringSubmatch(ln); m != nil {
+					decls = append(decls, decl{file, i + 1, inBlock, m[1]})
+				}
+				continue
+			}
+			if m := declLine.FindStringSubmatch(ln); m != nil {
+				if m[1] == "func" && strings.HasPrefix(strings.TrimSpace(ln[len("func"):]), "(") {
+					continue // method
+				}
+				decls = append(decls, decl{file, i + 1, m[1], m[2]})
+			}
+		}
+	}
+	norm := func(form string) string {
+		return actionRe.ReplaceAllStringFunc(form, func(a string) string {
+			m := actionRe.FindStringSubmatch(a)
+			return "{{" + strings.Join(strings.Fields(m[1]), " ") + "}}"
+		})
+	}
+	scope := packageScopeLines(ts, ck)
+	seen := map[string]bool{}
+	var fixedExported []string
+	nForms := 0
+	nested := 0
+	for _, d := range decls {
+		if !scope[fmt.Sprintf("%s:%d", d.file, d.line)] {
+			nested++
+			continue
+		}
+		form := norm(d.form)
+		if form == "_" {
+			continue
+		}
+		k := d.kind + " " + form
+		if seen[k] {
+			continue
+		}
+		seen[k] = true
+		nForms++
+		pos := fmt.Sprintf("gen/_template/%s:%d", d.file, d.line)
+		if !strings.Contains(form, "{{") {
+			if token.IsExported(form) {
+				fixedExported = append(fixedExported, form)
+			} else {
+				r.Pass(fmt.Sprintf("%s %s: fixed unexported identifier", d.kind, form))
+			}
+			continue
+		}
+		lit := form[:strings.Index(form, "{{")]
+		switch {
+		case strings.HasPrefix(d.file, "test_examples"):
+			r.Pass(fmt.Sprintf("%s %s at %s: declared in the generated _test.go file only, with the fixed shape Test<type>_<word>; not compiled into the package (NOT covered: an enum constant spelled exactly like that)", d.kind, form, pos))
+		case lit != "" && !token.IsExported(lit):
+			r.Pass(fmt.Sprintf("%s %s at %s: lower-case literal prefix, cannot equal an exported schema name", d.kind, form, pos))
+		case lit == "" && strings.Count(form, "{{") == 1 && strings.HasSuffix(form, "}}") && registry[fmt.Sprintf("%s:%d:%s", d.file, d.line, strings.ReplaceAll(form, " ", ""))]:
+			r.Pass(fmt.Sprintf("%s %s at %s: the name of a type held in the type storage", d.kind, form, pos))
+		default:
+			r.Fail("pkgscope:"+k, pos, fmt.Sprintf("%s %s is declared at package scope with a name derived from document names, outside the type storage: a schema (or another derived name) with the same spelling is not detected and the package gets two declarations of it", d.kind, form))
+		}
+	}
+	sort.Strings(fixedExported)
+	if len(fixedExported) > 0 {
+		r.Fail("pkgscope:fixed-exported-names", "gen/_template", fmt.Sprintf("%d exported identifiers are declared unconditionally by the templates (%s) and nothing keeps a schema from being given one of these names", len(fixedExported), strings.Join(fixedExported, ", ")))
+	}
+	r.Note("declaration forms catalogued from template text: %d (%d declaration lines, %d of them inside a function body)", nForms, len(decls), nested)
+}
+
+// packageScopeLines marks the template source lines whose text is emitted at Go brace depth 0: starting from the
+// root templates (depth 0), text nodes move the depth by their braces (strings, runes and comments skipped), a
+// {{template}} call hands its current depth to the callee, and the branches of if/range/with are assumed balanced.
+func packageScopeLines(ts *tmpl.Set, ck *tmpl.Checker) map[string]bool {
+	out := map[string]bool{}
+	visited := map[string]bool{}
+	var walkDefine func(name string, depth int)
+	braceDelta := func(text string) int {
+		d := 0
+		inStr, inRaw, inChar, inLine, inBlock := false, false, false, false, false
+		for i := 0; i < len(text); i++ {
+			ch := text[i]
+			switch {
+			case inLine:
+				if ch == '\n' {
+					inLine = false
+				}
+			case inBlock:
+				if ch == '*' && i+1 < len(text) && text[i+1] == '/' {
+					inBlock = false
+					i++
+				}
+			case inStr:
+				if ch == '\\' {
+					i++
+				} else if ch == '"' || ch == '\n' {
+					inStr = false
+				}
+			case inRaw:
+				if ch == '`' {
+					inRaw = false
+				}
+			case inChar:
+				if ch == '\\' {
+					i++
+				} else if ch == '\'' || ch == '\n' {
+					inChar = false
+				}
+			default:
+				switch ch {
+				case '"':
+					inStr = true
+				case '`':
+					inRaw = true
+				case '\'':
+					inChar = true
+				case '/':
+					if i+1 < len(text) && text[i+1] == '/' {
+						inLine = true
+					} else if i+1 < len(text) && text[i+1] == '*' {
+						inBlock = true
+					}
+				case '{':
+					d++
+				case '}':
+					d--
+				}
+			}
+		}
+		return d
+	}
+	var walkList func(define string, l *parse.ListNode, depth int) int
+	walkList = func(define string, l *parse.ListNode, depth int) int {
+		if l == nil {
+			return depth
+		}
+		file := ts.FileOf[define]
+		for _, n := range l.Nodes {
+			switch x := n.(type) {
+			case *parse.TextNode:
+				text := string(x.Text)
+				// mark lines that start at depth 0
+				line := ts.Line(define, x.Pos)
+				cur := depth
+				for _, ln := range strings.SplitAfter(text, "\n") {
+					if cur == 0 {
+						out[fmt.Sprintf("%s:%d", file, line)] = true
+					}
+					cur += braceDelta(ln)
+					if strings.HasSuffix(ln, "\n") {
+						line++
+					}
+				}
+				depth = cur
+			case *parse.IfNode:
+				d1 := walkList(define, x.List, depth)
+				walkList(define, x.ElseList, depth)
+				depth = d1
+			case *parse.RangeNode:
+				walkList(define, x.List, depth)
+				walkList(define, x.ElseList, depth)
+			case *parse.WithNode:
+				d1 := walkList(define, x.List, depth)
+				walkList(define, x.ElseList, depth)
+				depth = d1
+			case *parse.TemplateNode:
+				if depth == 0 {
+					walkDefine(x.Name, 0)
+				}
+			case *parse.ActionNode:
+				if depth == 0 {
+					out[fmt.Sprintf("%s:%d", file, ts.Line(define, x.Pos))] = true
+				}
+			}
+		}
+		return depth
+	}
+	walkDefine = func(name string, depth int) {
+		if visited[name] {
+			return
+		}
+		visited[name] = true
+		if tr := ts.Trees[name]; tr != nil {
+			walkList(name, tr.Root, depth)
+		}
+	}
+	for _, r := range ck.Roots {
+		walkDefine(r, 0)
+	}
+	return out
 }
